@@ -125,6 +125,11 @@ class Avp:
             The modified packer instance.
         """
         flags = self.flags
+        if self.length > 0xffffff:
+            # the length would spill into the flag octet
+            raise AvpEncodeError(
+                f"{self.name} is {self.length} bytes long, which does not "
+                f"fit the 24-bit AVP length field")
         packer.pack_uint(self.code)
         packer.pack_uint(self.length | (flags << 24))
         if self.vendor_id:
